@@ -108,7 +108,7 @@ def gen_adds(args):
   out = []
   for _ in range(count):
     n0 = rng.randrange(0, maxn - 200000)
-    d = rng.choice([1, 2, rng.randrange(1, 200), rng.randrange(1, 200000)])
+    d = rng.choice([0, 1, 2, rng.randrange(1, 200), rng.randrange(1, 200000)])     # 0 additions = no change
     tc = SmpteTimeCode.from_frames(n0, rate)
     tc.add_frames(d)
     p = _pack(_fields(tc))
